@@ -13,6 +13,7 @@ import (
 	"time"
 
 	"github.com/massnetorg/mass-core/consensus"
+	"github.com/massnetorg/mass-core/wire"
 	"github.com/syndtr/goleveldb/leveldb"
 	"github.com/syndtr/goleveldb/leveldb/opt"
 	"massnet.org/mass-wallet/config"
@@ -265,7 +266,7 @@ func c05Case(t *core.T, steps int, defaultScrypt bool) {
 			newWallet()
 			continue
 		}
-		switch t.R.Pick(12, 18, 12, 10, 10, 14, 8, 6, 4) {
+		switch t.R.Pick(12, 18, 12, 10, 10, 14, 8, 6, 4, 14) {
 		case 0:
 			if len(wallets) < 3 {
 				newWallet()
@@ -379,6 +380,89 @@ func c05Case(t *core.T, steps int, defaultScrypt bool) {
 			}
 			running = true
 			logf("-- wrong public passphrase refused, reopened")
+		case 9: // a signing call that succeeds or fails half-way must leave the keystore as it found it
+			if x.nAddr == 0 {
+				continue
+			}
+			if _, err := w.W.UseWallet(x.id); err != nil {
+				continue
+			}
+			var own *wire.OutPoint
+			var ownVal int64
+			findOwn := func() {
+				utxos, err := w.W.GetUtxo(nil)
+				if err != nil {
+					return
+				}
+				for _, l := range utxos {
+					for _, u := range l {
+						if h, err := wire.NewHashFromStr(u.TxId); err == nil && own == nil {
+							own, ownVal = wire.NewOutPoint(h, u.Vout), u.Amount.IntValue()
+						}
+					}
+				}
+			}
+			findOwn()
+			if own == nil {
+				// pay one of its addresses first
+				list, err := w.W.GetAddresses(0)
+				if err != nil || len(list) == 0 {
+					continue
+				}
+				h, err := sim.HashOfAddress(list[t.R.Intn(len(list))].Address)
+				if err != nil {
+					continue
+				}
+				cb := sim.Coinbase(n.Height()+1, t.R.Uint64(), []*wire.TxOut{wire.NewTxOut(int64(50000000+t.R.Intn(1000000)), sim.P2WSH(h))})
+				b := n.NewBlock(n.Tip(), []*wire.MsgTx{cb})
+				if err := n.Extend(b); err != nil {
+					t.Fatalf("extend: %v", err)
+				}
+				w.Deliver(b)
+				w.Quiesce(30 * time.Second)
+				logf("block %d pays %s", b.Height, x.id[:8])
+				findOwn()
+				if own == nil {
+					continue
+				}
+			}
+			var strangerH [32]byte
+			copy(strangerH[:], t.R.Bytes(32))
+			ins := []wire.OutPoint{*own}
+			kind := "all inputs known"
+			if t.R.Chance(65) {
+				var bogus wire.Hash
+				copy(bogus[:], t.R.Bytes(32))
+				ins = append(ins, *wire.NewOutPoint(&bogus, uint32(t.R.Intn(2))))
+				kind = "second input unknown"
+			}
+			tx := sim.Spend(ins, nil, []*wire.TxOut{wire.NewTxOut(ownVal/2, sim.P2WSH(strangerH))}, t.R.Uint64()|1)
+			stripWitness(tx)
+			t.Eval(1)
+			_, serr := w.W.SignRawTx([]byte(x.pass), "ALL", tx)
+			logf("SignRawTx(%s) right passphrase, %s -> %v", x.id[:8], kind, serr)
+			if serr != nil {
+				outputs = append(outputs, []byte(serr.Error()))
+			}
+			if kind == "all inputs known" && serr != nil {
+				fail("right-passphrase-refused:signrawtx", serr.Error())
+				continue
+			}
+			// afterwards the right passphrase must still do everything, twice in a row, and a wrong
+			// one nothing
+			for round := 0; round < 2 && !t.Failed(); round++ {
+				t.Eval(1)
+				if _, err := w.W.ExportWallet(x.id, x.pass); err != nil {
+					fail("right-passphrase-refused:export-after-signing", fmt.Sprintf("ExportWallet after SignRawTx (%s, result %v): %v", kind, serr, err))
+				}
+				if m, _, err := w.W.GetMnemonic(x.id, x.pass); err != nil || m != x.mnemonic {
+					fail("right-passphrase-refused:mnemonic-after-signing", fmt.Sprintf("GetMnemonic after SignRawTx (%s, result %v): %q %v", kind, serr, m, err))
+				}
+			}
+			if !t.Failed() {
+				refused("ExportWallet", func(p string) error { _, err := w.W.ExportWallet(x.id, p); return err }, x)
+				t.Count("signing_calls_followed_by_passphrase_checks", 1)
+			}
 		case 8: // remove with the right passphrase (then the wallet is gone)
 			if len(wallets) < 2 {
 				continue
